@@ -7,6 +7,7 @@ import PartituraModel.Model.Binary64
 import PartituraModel.Model.XmlBar
 import PartituraModel.Model.XmlPartList
 import PartituraModel.Model.XmlTrace
+import PartituraModel.Model.XmlAttrs
 
 open Wire Model.Xml
 open Model.Ranges (Mark TieNote)
@@ -385,6 +386,11 @@ def handle (ts : List String) : String :=
     match run pMeasure rest with
     | some m => fmtList fmtEv (linearize m)
     | none => "bad-request"
+  | "stab" :: rest =>
+    -- `remove_voice_polyphony` leaves every segment of the measure as it is (no note moves, no voice is added)
+    match run pMeasure rest with
+    | some m => fmtBool (m.segs.all fun s => decide (assignVoices s.notes = partitionVoices s.notes))
+    | none => "bad-request"
   | "wf" :: rest =>
     match run pMeasure rest with
     | some m => fmtBool (decide (MeasureWF m))
@@ -555,6 +561,36 @@ def handle (ts : List String) : String :=
       let tr := readOthers false start evs
       fmtList (fun (e : OtherAt) => fmtNat e.pos ++ ":" ++ fmtNat e.order ++ ":" ++ e.sig) tr ++ "/" ++
         fmtBool (tr.all fun e => decide (e.pos ≤ e.maxt) && decide (e.maxt ≤ stop))
+    | none => "bad-request"
+  | "wattrs" :: rest =>
+    -- `do_attributes(part, start, end)`: the `(t, <attributes>)` list from the results of its five iteration calls
+    match run (do
+        let qs ← list (do let t ← nat; let q ← int; pure (t, q))
+        let ks ← list (do let t ← nat; let f ← int; let m ← opt XmlWire.pStr; pure (t, f, m))
+        let ts ← list (do let t ← nat; let a ← int; let b ← int; pure (t, a, b))
+        let ss ← list (do let t ← nat; let l ← opt int; pure (t, l))
+        let cs ← list (do
+          let t ← nat; let n ← int; let st ← opt int; let sg ← XmlWire.pStr; let l ← opt int; let oc ← opt int
+          pure ({ t := t, number := n, staff := st, sign := sg, line := l, octaveChange := oc } : Model.XmlAttrs.ClefSrc))
+        pure ({ quarters := qs, keys := ks, times := ts, staffs := ss, clefs := cs } : Model.XmlAttrs.AttrSrc)) rest with
+    | some s =>
+      fmtList (fun (e : Nat × Model.XmlNote.Xml) => fmtNat e.1 ++ ":" ++ XmlWire.fmtXml e.2) (Model.XmlAttrs.doAttributes s)
+    | none => "bad-request"
+  | "rsd" :: rest =>
+    -- the `<staff-details>` loop of `_handle_attributes`: (number, lines) of every `score.Staff` added
+    match run XmlWire.pXml rest with
+    | some x =>
+      match Model.XmlAttrs.readStaffs x with
+      | some l => fmtList (fun (r : Model.XmlAttrs.StaffRead) => fmtTuple [fmtInt r.number, fmtOpt fmtInt r.lines]) l
+      | none => "err"
+    | none => "bad-request"
+  | "fattr" :: rest =>
+    -- an `<attributes>` element -> the element `writeAttributes` gives for what was read from it (attributes_fixpoint)
+    match run (do let x ← XmlWire.pXml; let st ← opt nat; pure (x, st)) rest with
+    | some (x, st) =>
+      match Model.XmlDir.readAttributes x, Model.XmlAttrs.readStaffs x with
+      | some r, some l => XmlWire.fmtXml (Model.XmlDir.writeAttributes (Model.XmlAttrs.reexportItems r l) st)
+      | _, _ => "err"
     | none => "bad-request"
   | "wbar" :: rest =>
     -- `do_barlines(part, start, end)`: the `(onset, <barline>)` list
